@@ -35,7 +35,7 @@ RECV = {"resp": 0, "timeout": 1, "reset": 2, "eof": 3, "garbage": 4, "tls": 4}
 
 def in_model_domain(case):
     """a response that cannot be decrypted (ssl.SSLError from recv) is judged by the oracle only"""
-    return not any(a["recv"][0] == "tls" for a in case["script"])
+    return not any(a["recv"][0] == "tls" or (a["recv"][0] == "resp" and isinstance(a["recv"][2], str)) for a in case["script"])
 
 
 def enc_count(c):
@@ -73,7 +73,7 @@ def enc_arg(a):
 def enc_attempt(a):
     r = a["recv"]
     if r[0] == "resp":
-        re = [0, Z(r[1]), Opt(r[2], Z), B(r[3])]
+        re = [0, Z(r[1]), Opt(r[2] if not isinstance(r[2], str) else 0, Z), B(r[3])]
     else:
         re = [RECV[r[0]]]
     return [CONN[a["connect"]], SEND[a["send"]], re]
@@ -267,9 +267,10 @@ def oracle(case, obs):
                 used[cat], cat, key, b, [(a["send"], a["recv"][0]) for a in case["script"][:n]])
     # sleeps
     bmax = Fraction(pol.get("backoff_max", 120))
-    ras = [Fraction(a["recv"][2]) for a in case["script"][:n] if a["recv"][0] == "resp" and a["recv"][2] is not None]
+    ra_val = lambda x: Fraction(0) if isinstance(x, str) else Fraction(x)          # (a Retry-After given as a date in the past stands for "now")
+    ras = [ra_val(a["recv"][2]) for a in case["script"][:n] if a["recv"][0] == "resp" and a["recv"][2] is not None]
     # Retry-After is the server's say only on 413 / 429 / 503
-    ras_ok = [Fraction(a["recv"][2]) for a in case["script"][:n] if a["recv"][0] == "resp" and a["recv"][2] is not None and a["recv"][1] in (413, 429, 503)]
+    ras_ok = [ra_val(a["recv"][2]) for a in case["script"][:n] if a["recv"][0] == "resp" and a["recv"][2] is not None and a["recv"][1] in (413, 429, 503)]
     for s in sleeps:
         v = Fraction(s[0][1] * (1 if s[0][0] == 0 else -1), s[1])
         if v < 0:
@@ -389,6 +390,13 @@ def cases(rng, tier):
     if tier == "quick" and len(out) > 14000:
         head = out[:200]
         out = head + rng.sample(out[200:], 13800)
+    # Retry-After given as an HTTP-date that is already past (the harness clock stands at 2023-11-14): the pause is zero, never negative
+    PAST = "Wed, 21 Oct 2015 07:28:00 GMT"
+    for status in (503, 429, 413):
+        for pol in (["none"], ["int", 2], ["retry", {"total": 3, "forcelist": [503], "backoff": "1/2"}], ["retry", {"total": 3, "respect": False, "forcelist": [503]}]):
+            for mode in ("direct", "forwarding", "tunnelling"):
+                seq = [{"connect": "ok", "send": "ok", "recv": ["resp", status, PAST, True]}] * 2
+                out.append({"mode": mode, "method": "GET", "retries": pol, "script": [dict(a) for a in seq] + [OK200] * 4})
     # instead of the response something that cannot be decrypted arrives (ssl.SSLError from recv): the request may have reached the server
     TLSERR = {"connect": "ok", "send": "ok", "recv": ["tls"]}
     for pol in pols:
